@@ -17,7 +17,7 @@ def repo_path():
 
 def run_clang(unit_cpp, outbase, defines=(), extra_prefixes=(), std="c++11"):
     repo = repo_path()
-    cmd = ["clang++", "-std=" + std, "-fsyntax-only", "-DNDEBUG", "-w",
+    cmd = ["clang++", "-std=" + std, "-fsyntax-only", "-DNDEBUG", "-w", "-fno-access-control",
            "-I" + repo, "-I" + os.path.join(VERIF, "units")]
     for d in defines:
         cmd.append("-D" + d)
